@@ -387,6 +387,83 @@ def err_kind(e: BaseException) -> str:
     return "err:other:" + name
 
 
+def start_code_coverage(tier):
+    """Measured side channel for the quality of the tie: which lines/branches of the functions this property's
+    coverage map (lean/coverage/Cxx.json) calls `modelled` or `tied` did THIS run's tie execute (main process only).
+    On in the thorough tier, or with VERIF_COV=1; never a violation, only evidence."""
+    want = os.environ.get("VERIF_COV", "1" if tier == "thorough" else "0")
+    if want != "1":
+        return None
+    try:
+        import coverage
+        import importlib.util  # noqa: F401  (infretis.factory needs it imported)
+        spec = importlib.util.find_spec("infretis")
+        root = str(Path(spec.origin).parent)
+        c = coverage.Coverage(branch=True, include=[root + "/*"], data_file=None, config_file=False)
+        c.start()
+        c._verif_root = root
+        return c
+    except Exception:  # noqa: BLE001
+        return None
+
+
+def finish_code_coverage(cov, ctx):
+    if cov is None:
+        return
+    try:
+        cov.stop()
+        import tempfile
+        mp = VERIF / "lean" / "coverage" / f"{ctx.prop}.json"
+        cmap = json.loads(mp.read_text()) if mp.exists() else {}
+        with tempfile.TemporaryDirectory(dir=str(VERIF / "scratch") if (VERIF / "scratch").is_dir() else None) as td:
+            out = Path(td) / "cov.json"
+            import contextlib
+            import io
+            with contextlib.redirect_stdout(io.StringIO()), contextlib.redirect_stderr(io.StringIO()):
+                cov.json_report(outfile=str(out), ignore_errors=True)
+            rep = json.loads(out.read_text())
+        root = Path(cov._verif_root).parent
+        per = {}
+        tot = {"functions": 0, "fully_covered": 0, "never_entered": 0, "statements": 0, "covered_statements": 0,
+               "branches": 0, "covered_branches": 0}
+        for fname, fd in rep.get("files", {}).items():
+            try:
+                rel = str(Path(fname).resolve().relative_to(root))
+            except ValueError:
+                rel = fname
+            for q, d in fd.get("functions", {}).items():
+                key = f"{rel}::{q}"
+                ent = cmap.get(key)
+                if not ent or ent.get("status") not in ("modelled", "tied"):
+                    continue
+                sm = d.get("summary", {})
+                # the `def` line runs at import time, before measurement: a function whose only missing line is its
+                # first line is fully covered
+                first = min(d.get("executed_lines", []) + d.get("missing_lines", []) or [0])
+                missing = [l for l in d.get("missing_lines", []) if l != first]
+                n = sm.get("num_statements", 0)
+                covd = n - len(missing)
+                tot["functions"] += 1
+                tot["statements"] += n
+                tot["covered_statements"] += covd
+                tot["branches"] += sm.get("num_branches", 0)
+                tot["covered_branches"] += sm.get("covered_branches", 0)
+                entered = bool(d.get("executed_lines")) and (len(d.get("executed_lines")) > 1 or n <= 1)
+                if not entered:
+                    tot["never_entered"] += 1
+                if not missing and sm.get("missing_branches", 0) == 0:
+                    tot["fully_covered"] += 1
+                else:
+                    per[key] = {"status": ent["status"], "missing_lines": missing[:40],
+                                "missing_branches": [list(b) for b in d.get("missing_branches", [])][:40]}
+        ctx.extra["tie_code_coverage"] = {
+            "scope": "main process of this check only (child processes, worker pools and fake MD programs are not "
+                     "measured); functions = those lean/coverage/%s.json lists as modelled or tied" % ctx.prop,
+            "summary": tot, "not_fully_covered": per}
+    except Exception as e:  # noqa: BLE001
+        ctx.extra["tie_code_coverage"] = {"error": f"{type(e).__name__}: {e}"}
+
+
 def main(argv=None):
     import argparse
     ap = argparse.ArgumentParser()
@@ -408,6 +485,7 @@ def main(argv=None):
     signal.alarm(budget)
     sys.path.insert(0, str(VERIF / "harness"))
     os.chdir(VERIF)
+    cov = start_code_coverage(tier)
     try:
         ok, log = ctx.lean_build()
         if not ok:
@@ -467,6 +545,7 @@ def main(argv=None):
                     break
             ctx.seed = seed
             ctx.extra["escalation_rounds"] = rounds
+        finish_code_coverage(cov, ctx)
         rc = ctx.finish()
         print(f"[{prop}] tier={tier} seed={seed} evaluations={ctx.evaluations} distinct={len(ctx.nontrivial)} "
               f"obligations={ctx.proof['obligations']}/{ctx.proof['discharged']} disagreements={len(ctx.disagreements)} "
